@@ -129,6 +129,15 @@ def entry_exit_rule(db, rep, r, fns):
     callee that does (summaries computed to a fixed point)."""
     sets_both = set()
     bodies = {f: db.mir[f] for f in fns if f in db.mir}
+    # plumbing of the same modules that also receives the graph (e.g. a scaffold helper that creates the block, runs a closure
+    # and sets entry/exit, whatever it returns) takes part in the summaries, not in the verdicts
+    judged = set(bodies)
+    prefixes = {f.rsplit("::", 1)[0] + "::" for f in bodies}
+    for k in db.hir.keys():
+        if k in bodies or "::{closure#" in k or "::tests" in k or not k.startswith(tuple(prefixes)) or k not in db.mir:
+            continue
+        if any("&mut il::control_flow_graph::ControlFlowGraph" in i for i in (db.hir[k].get("inputs") or [])):
+            bodies[k] = db.mir[k]
     changed = True
     verdict = {}
     while changed:
@@ -168,7 +177,7 @@ def entry_exit_rule(db, rep, r, fns):
             if good:
                 sets_both.add(f)
                 changed = True
-    for f in sorted(bodies):
+    for f in sorted(judged):
         good, noks = verdict.get(f, (False, 0))
         rep.analysed(f)
         if noks == 0:
